@@ -450,10 +450,17 @@ trivial = empty list; distinct = distinct kind strings; oracle = 60-line referen
             1 => rng.urange(1, 8),
             _ => rng.urange(8, 120),
         };
-        let mut items = Vec::with_capacity(len);
+        let mut items: Vec<Item> = Vec::with_capacity(len);
         let mut elev = rng.range(1, 5) as u8;
         let mut shape = mix(141, len as u64);
         for k in 0..len {
+            // a message sent twice: equal to its predecessor in every byte, still a message of the list
+            if !items.is_empty() && rng.chance(1, 12) {
+                let prev: Item = items[items.len() - 1].clone();
+                shape = mix(shape, 7777);
+                items.push(prev);
+                continue;
+            }
             let it = match rng.below(12) {
                 0 => gen_item(&mut rng, b'S', 0, k as u32),
                 1 => gen_item(&mut rng, b'V', 0, k as u32),
